@@ -451,6 +451,7 @@ func RunQuery(r QueryRun) (o *Outcome) {
 	if ct != nil {
 		ct.Finish()
 		o.Contract = ct.Findings
+		o.ContractStats = [4]int{ct.Ops, ct.Nexts, ct.Serieses, ct.Probes}
 	}
 	if r.Sim != nil {
 		// let the canceller finish so that it does not outlive the query
